@@ -176,8 +176,13 @@ def vh(args, timeout=3600, name="vh"):
     cmd = [VH] + [str(a) for a in args] + ["--report", rp]
     t = time.time()
     try:
-        p = subprocess.run(cmd, stdout=subprocess.PIPE, stderr=subprocess.STDOUT, timeout=timeout, text=True,
-                           errors="replace")
+        env = dict(os.environ)
+        env["RUST_BACKTRACE"] = "0"        # GDError captures a backtrace per error when this is set: far too slow
+        env["RUST_LIB_BACKTRACE"] = "0"
+        # the library prints debugging output on stdout in places (unreal2): discard it, keep stderr
+        p = subprocess.run(cmd, stdout=subprocess.DEVNULL, stderr=subprocess.PIPE, timeout=timeout, text=True,
+                           errors="replace", env=env)
+        p.stdout = p.stderr
     except subprocess.TimeoutExpired:
         return {"crashed": "timeout", "output": "", "wall_s": timeout}
     dt = time.time() - t
@@ -288,3 +293,36 @@ def generic_replay(path):
     r = vh(["replay", "--in", path], name="replay")
     print(json.dumps(r, indent=1)[:6000])
     return 1 if (r.get("violations") or "crashed" in r) else 0
+
+
+def validate_trace(v, module, cfg, tracefile, splitter="New", max_rounds=6):
+    """Validate; on rejection report the run containing the rejected line, drop it, validate the rest."""
+    validated = 0
+    stats = {"states": 0, "transitions": 0}
+    for _ in range(max_rounds):
+        ok, info = tlc_trace(module, cfg, tracefile)
+        stats["states"] += info["states"]; stats["transitions"] += info["transitions"]
+        lines = open(tracefile).read().splitlines()
+        if ok:
+            validated += sum(1 for l in lines if json.loads(l).get("ev") == splitter)
+            return validated, stats
+        at = info["rejected_at"]              # 1-based index of the first unmatched line
+        start = at - 1
+        while start > 0 and json.loads(lines[start]).get("ev") != splitter:
+            start -= 1
+        end = at
+        while end < len(lines) and json.loads(lines[end]).get("ev") != splitter:
+            end += 1
+        run = [json.loads(l) for l in lines[start:end]]
+        bad = json.loads(lines[at - 1]) if at - 1 < len(lines) else None
+        op = (bad or {}).get("o", {}).get("op", "?") if isinstance((bad or {}).get("o"), dict) else (bad or {}).get("ev", "?")
+        v.add(f"trace rejected by {module}: op={op} {'panic' if (bad or {}).get('ev')=='Panic' else 'not a model step'}",
+              {"kind": "trace-run", "module": module, "cfg": cfg, "run": run, "rejected_event": bad})
+        validated += sum(1 for l in lines[:start] if json.loads(l).get("ev") == splitter)
+        rest = lines[end:]
+        if not rest:
+            return validated, stats
+        open(tracefile, "w").write("\n".join(rest) + "\n")
+    return validated, stats
+
+
